@@ -131,18 +131,18 @@ def field_events(classes, ulog, plog):
 # ------------------------------------------------------------------ projections
 def abs_value(v):
     if isinstance(v, bool):
-        return {"t": "int", "v": int(v)}
+        return {"t": "int", "i": int(v)}
     if isinstance(v, int):
-        return {"t": "int", "v": v}
+        return {"t": "int", "i": v}
     if isinstance(v, (bytes, bytearray)):
-        return {"t": "bytes", "v": list(v)}
+        return {"t": "bytes", "b": list(v)}
     if v is None:
         return {"t": "none"}
     if isinstance(v, list):
-        return {"t": "list", "v": [abs_value(x) for x in v]}
+        return {"t": "list", "l": [abs_value(x) for x in v]}
     if isinstance(v, Packet):
         return abs_packet(v)
-    return {"t": "other", "v": repr(v)}
+    return {"t": "other", "o": repr(v)}
 
 
 def abs_packet(p):
@@ -172,13 +172,13 @@ def build_value(mod, v):
     """specification value -> real object (classes taken from the generated module)"""
     t = v["t"]
     if t == "int":
-        return v["v"]
+        return v["i"]
     if t == "bytes":
-        return bytes(v["v"])
+        return bytes(v["b"])
     if t == "none":
         return None
     if t == "list":
-        return [build_value(mod, x) for x in v["v"]]
+        return [build_value(mod, x) for x in v["l"]]
     if t == "pkt":
         cls = getattr(mod, v["cls"])
         return cls(**{e["n"]: build_value(mod, e["v"]) for e in v["vals"]})
